@@ -94,6 +94,8 @@ theorem step_agree (s : State) (e : Event) (h : Inv s) (hl : EventLegal s e) : A
   | retry ch ok => exact Agree.of_quiet (q_retryOpen s ch ok) (seq_retryOpen s ch ok) ha
   | settle r => exact Agree.of_quiet (q_settle s r) (seq_settle s r) ha
   | «continue» ex => exact Agree.of_quiet (q_continueGame s ex) (seq_continueGame s ex) ha
+  | contReset => exact Agree.of_quiet (q_continueGame s true) (seq_continueGame s true) ha
+  | tick ex => exact Agree.of_quiet (q_nextMove s ex) (seq_nextMove s ex) ha
 
 theorem step_inv (s : State) (e : Event) (h : Inv s) (hl : EventLegal s e) : Inv (step s e) :=
   ⟨step_booked s e h.1 (eventArrivalOK_of_inv s e h hl), step_agree s e h hl⟩
